@@ -51,6 +51,7 @@ func replayCmd(verifDir, repoDir, path string) int {
 	}
 	curSimProcs = rp.SimProcs
 	curSimEpoch = rp.SimEpoch
+	curStepNS = rp.StepNS
 	if rp.Variant != "" {
 		// the same knobs / hash functions (by name, file, value) must still exist in the current tree
 		var ks []instr.Knob
